@@ -41,29 +41,109 @@ class LiteAgent:
         return c
 
 
-def net_fingerprint(agent):
-    """hash of every evolvable network's parameters/buffers (dqn) or of the body (lite)"""
-    h = hashlib.sha1()
+def _inner(agent):
+    """(wrapper or None, algorithm): AgentWrapper instances keep the algorithm in `.agent`"""
+    if not isinstance(agent, LiteAgent) and "agent" in getattr(agent, "__dict__", {}):
+        return agent, agent.__dict__["agent"]
+    return None, agent
+
+
+def _walk(prefix, v, out, depth=0):
+    """flatten a value into slots: (name, kind, leaf) with kind in tensor|array|list|scalar"""
+    if torch.is_tensor(v):
+        out.append((prefix, "tensor", v))
+    elif isinstance(v, np.ndarray):
+        out.append((prefix, "array", v))
+    elif isinstance(v, (list, tuple)):
+        if isinstance(v, list):
+            out.append((prefix, "list", v))
+        if depth < 4:
+            for i, x in enumerate(v):
+                _walk(f"{prefix}[{i}]", x, out, depth + 1)
+    elif isinstance(v, dict):
+        if depth < 4:
+            for k in sorted(v, key=repr):
+                _walk(f"{prefix}[{k!r}]", v[k], out, depth + 1)
+    elif isinstance(v, (int, float, str, bool, type(None), np.generic)):
+        out.append((prefix, "scalar", v))
+    elif isinstance(v, torch.nn.Module):
+        out.append((prefix, "module", v))
+        for k, t in v.state_dict().items():
+            out.append((f"{prefix}/{k}", "tensor", t))
+    elif hasattr(v, "__dict__") and depth < 3 and type(v).__module__.startswith("agilerl"):
+        for k in sorted(vars(v)):
+            if not k.startswith("__") and not callable(vars(v)[k]):
+                _walk(f"{prefix}.{k}", vars(v)[k], out, depth + 1)
+    else:
+        out.append((prefix, "scalar", repr(v) if type(v).__module__.startswith("gymnasium") else type(v).__name__))
+
+
+def slots(agent):
+    """every piece of state of an agent: plain attributes (tensors, arrays, lists, scalars, incl. those of an
+    AgentWrapper), all evolvable networks, all optimizer states.  name -> (kind, leaf)"""
+    out = []
     if isinstance(agent, LiteAgent):
-        h.update(repr(agent.body).encode())
-        return h.hexdigest()[:16]
-    # the trained (evaluation / policy) networks and the optimizer state.  Lagging copies (DQN's
-    # actor_target) are NOT compared: clone() runs the mutation hook, which by design re-synchronises
-    # the target with the online network (observation reported for C01/C08, not a C05 clause).
+        _walk("attr:fitness", agent.fitness, out)
+        _walk("attr:body", agent.body, out)
+        out.append(("attr:index", "scalar", agent.index))
+        return out
+    wrapper, algo = _inner(agent)
+    if wrapper is not None:
+        for k in sorted(vars(wrapper)):
+            if k in ("agent", "agent_get_action", "agent_learn", TAG) or callable(vars(wrapper)[k]):
+                continue
+            _walk(f"wrapper:{k}", vars(wrapper)[k], out)
+    from agilerl.algorithms.core.base import EvolvableAlgorithm
     try:
-        names = sorted({g.eval for g in agent.registry.groups})
+        attrs = EvolvableAlgorithm.inspect_attributes(algo)
+    except Exception:  # noqa: BLE001
+        attrs = {k: v for k, v in vars(algo).items() if not k.startswith("_")}
+    for k in sorted(attrs):
+        v = attrs[k]
+        if k == TAG or callable(v) or isinstance(v, EvolvableAlgorithm):
+            continue
+        _walk(f"attr:{k}", v, out)
+    shared = set()
+    try:
+        for g in algo.registry.groups:
+            sh = g.shared if isinstance(g.shared, (list, tuple)) else ([g.shared] if g.shared else [])
+            shared.update(sh)
     except AttributeError:
-        names = sorted(agent.evolvable_attributes(networks_only=True))
-    for name in names:
-        net = getattr(agent, name)
-        nets = net if isinstance(net, list) else [net]
-        for m in nets:
-            for k, v in m.state_dict().items():
-                h.update(k.encode())
-                h.update(v.detach().cpu().numpy().tobytes())
-    for t in opt_state_tensors(agent):
-        h.update(t.detach().cpu().numpy().tobytes())
-    return h.hexdigest()[:16]
+        pass
+    for name, net in sorted(algo.evolvable_attributes(networks_only=True).items()):
+        _walk(("lagnet:" if name in shared else "net:") + name, net, out)
+    for i, t in enumerate(opt_state_tensors(algo)):
+        out.append((f"opt:{i}", "tensor", t))
+    return out
+
+
+def _leaf_bytes(kind, v):
+    if kind == "tensor":
+        return v.detach().cpu().numpy().tobytes() + str(tuple(v.shape)).encode()
+    if kind == "array":
+        return v.tobytes() + str(v.shape).encode()
+    if kind == "list":
+        return f"list[{len(v)}]".encode()
+    if kind == "module":
+        return type(v).__name__.encode()
+    return repr(v).encode()
+
+
+def full_state(agent):
+    """slot name -> content hash, for everything the agent holds"""
+    return {name: hashlib.sha1(_leaf_bytes(kind, v)).hexdigest()[:12] for name, kind, v in slots(agent)}
+
+
+# what a faithful copy must reproduce: everything except the index, and except lagging (target) networks, which
+# clone() re-synchronises with the online network through the mutation hook (C01/C08 observation, not a C05 clause)
+def faithful_view(state):
+    # attr:mut is the label of the last mutation, rewritten by Mutations.mutation even when it is a no-op
+    return {k: v for k, v in state.items() if k not in ("attr:index", "attr:mut") and not k.startswith("lagnet:")}
+
+
+def net_fingerprint(agent):
+    st = faithful_view(full_state(agent))
+    return hashlib.sha1(repr(sorted(st.items())).encode()).hexdigest()[:16]
 
 
 def opt_state_tensors(agent):
@@ -84,28 +164,33 @@ def opt_state_tensors(agent):
 
 
 def storages(agent):
-    """identities of the mutable pieces an agent owns"""
-    out = {id(agent), id(agent.fitness)}
-    if isinstance(agent, LiteAgent):
-        out.add(id(agent.body))
-        return out
-    for name, net in agent.evolvable_attributes(networks_only=True).items():
-        nets = net if isinstance(net, list) else [net]
-        for m in nets:
-            out.add(id(m))
-            for p in m.parameters():
-                if p.numel() > 0:              # empty tensors have no storage of their own (data_ptr 0)
-                    out.add(("ptr", p.data_ptr()))
-    for t in opt_state_tensors(agent):
-        if t.numel() > 0:
-            out.add(("ptr", t.data_ptr()))
+    """identities of the mutable pieces an agent owns: storage key -> slot name"""
+    out = {id(agent): "object"}
+    wrapper, algo = _inner(agent)
+    if wrapper is not None:
+        out[id(algo)] = "wrapped-agent"
+    for name, kind, v in slots(agent):
+        if kind == "tensor":
+            if v.numel() > 0:                  # empty tensors have no storage of their own (data_ptr 0)
+                out[("ptr", v.data_ptr())] = name
+        # numpy arrays: constructor arguments such as DDPG's expl_noise / mean_noise are handed from the parent to
+        # the clone's constructor as the same (constant) array object; interference through arrays is detected
+        # dynamically (a member trains and acts, everybody else is re-inspected), not by identity
+        elif kind in ("list", "module") and "['" not in name:
+            # lists inside configuration dicts (net_config, hp_config ...) are descriptors handed from the parent's
+            # constructor arguments to the clone's: their content is compared, their identity is not
+            out[id(v)] = name
     return out
 
 
 def snapshot(agent):
+    st = full_state(agent)
     return {"index": int(agent.index), "fitness": [float(x) for x in agent.fitness],
-            "tag": getattr(agent, TAG, None), "fp": net_fingerprint(agent), "id": id(agent),
-            "fid": id(agent.fitness)}
+            "tag": getattr(agent, TAG, None),
+            "fp": hashlib.sha1(repr(sorted(faithful_view(st).items())).encode()).hexdigest()[:16],
+            "full": hashlib.sha1(repr(sorted(st.items())).encode()).hexdigest()[:16],
+            "fstate": faithful_view(st),
+            "id": id(agent), "fid": id(agent.fitness)}
 
 
 class Script:
@@ -165,10 +250,14 @@ class C05(vlib.Driver):
     trusted_base = ["hand-written model coq/theories/C05/Model.v",
                     "correspondence harness harness/c05.py (scripted np.random.randint, parent tags copied by clone, "
                     "exact float->Q import of fitness values)"]
-    assumptions = ["np.argsort(x).argsort() returns a permutation of 0..n-1 that is strictly monotone in x whatever the "
-                   "tie-breaking of the sort (valid_ranking); exercised by K with ties, compared by mean class",
-                   "np.mean in float64 orders the window means like the exact rational means (generator keeps sums exact "
-                   "or means well separated; verified per case with fractions.Fraction)",
+    assumptions = ["tie classes are compared by score value, never by position (NumPy's sort is not stable; 20+ quick cases break a "
+                   "top tie unlike a stable sort)",
+                   "the scores the code ranks by are observed (np.mean results while select runs) and accepted when within relative "
+                   "2^-40 of the exact window means; ranking is then checked on the observed scores, so float rounding of near-ties "
+                   "needs no assumption.  When they cannot be observed (mean computed otherwise) exact means are used and the "
+                   "generation must be well-conditioned (float order == exact order, checked with fractions.Fraction)",
+                   "np.argsort returns a permutation that sorts its input (then argsort().argsort() is a valid ranking: theorem "
+                   "any_argsort_gives_valid_ranking)",
                    "every agent has >= 1 fitness entry and the population is non-empty (guards stated in the theorems)",
                    "EvolvableAlgorithm.clone itself is property C01; here only fitness/index/tag/network-parameter equality "
                    "and non-aliasing of the copies are observed"]
@@ -223,8 +312,11 @@ class C05(vlib.Driver):
             return list(range(n))
         if style < 0.8:
             return rng.sample(range(0, max(40, 2 * n)), n)
-        base = rng.randint(50, 3000)
-        return rng.sample(range(base, base + 3 * n + 3), n)
+        if style < 0.9:
+            base = rng.randint(50, 3000)
+            return rng.sample(range(base, base + 3 * n + 3), n)
+        ix = sorted(rng.sample(range(-20, 60), n), reverse=True)      # descending: the largest index comes first
+        return ix
 
     def generate(self, tier, rng):
         cases = []
@@ -285,6 +377,57 @@ class C05(vlib.Driver):
             cases.append({"kind": "lite", "via": "select", "cfg": {"t": t, "e": rng.random() < 0.5, "p": p, "w": w},
                           "pop": [{"index": ix, "fitness": f} for ix, f in zip(self.rand_indices(rng, n), fits)],
                           "gens": [{"draws": self.gen_draws(rng, n, t, p + 2), "newfit": []}]})
+        # G. other real agents, each having LEARNED and ACTED before selection: bandits (confidence matrix in a plain
+        #    tensor updated in place), an actor-critic (noise state in arrays), a multi-agent algorithm (lists of
+        #    networks/optimizers), AgentWrapper-wrapped populations (RSNorm: index/fitness reached through the wrapper,
+        #    running statistics on the wrapper).  Single selections and chains; every member trains and acts afterwards.
+        kinds = ["ucb", "ts", "ddpg", "maddpg", "rsnorm", "rsnorm-ddpg", "td3", "cqn", "ppo", "matd3"]
+        for kind in kinds:
+            heavy = kind in ("maddpg", "matd3")
+            extra = kind in ("td3", "cqn", "ppo", "matd3")      # more algorithms: one selection each in the quick tier
+            for rep in range((1 if heavy or extra else 2) if quick else (3 if heavy else 8)):
+                n = rng.choice([2, 3]) if heavy else rng.choice([2, 3, 4])
+                p = rng.choice([n, n + 1, 2]) if not heavy else rng.choice([2, 3])
+                t, w = rng.randint(1, 3), rng.randint(1, 3)
+                cases.append({"kind": kind, "via": "select", "cfg": {"t": t, "e": rng.random() < 0.6, "p": p, "w": w},
+                              "ftype": rng.choice(["float", "np", "int"]),
+                              "pop": [{"index": ix, "fitness": f} for ix, f in zip(self.rand_indices(rng, n), self.rand_fitness(rng, n, w))],
+                              "gens": [{"draws": self.gen_draws(rng, n, t, p + 2), "newfit": []}]})
+            if extra and quick:
+                continue
+            n = 2 if heavy else 3
+            c = self.chain_case(rng, kind, "utils" if kind in ("rsnorm", "ucb") else "select", n, n, rng.randint(1, 3), rng.randint(1, 2),
+                                True, 3 if quick else 6)
+            c["ftype"] = "np"
+            cases.append(c)
+        # G'. populations that were saved and loaded back before the selection (a resumed run)
+        for kind in ("dqn", "ucb"):
+            for rep in range(1 if quick else 4):
+                n, p, t, w = 3, rng.choice([3, 4]), 2, rng.randint(1, 3)
+                c = self.chain_case(rng, kind, "select", n, p, t, w, True, 2 if quick else 4)
+                c["reload"] = True
+                cases.append(c)
+        # H. clone -> mutate -> clone chains: real architecture / parameter / hyper-parameter mutations between the
+        #    selections (tournament_selection_and_mutation as the training loops call it)
+        for ci in range(2 if quick else 8):
+            c = self.chain_case(rng, "dqn" if ci % 2 == 0 else "rsnorm", "utils", 3, rng.choice([3, 4]), 2, rng.randint(1, 3),
+                                rng.random() < 0.7, 5 if quick else 10)
+            c["mut"] = "real"
+            cases.append(c)
+        # E'. near-ties: windows whose exact means are equal or 1 ulp apart while the float64 means may differ
+        #     (order of summation): ranked by the scores the code actually computed
+        near = [[0.1, 0.2, 0.3], [0.3, 0.2, 0.1], [0.2, 0.2, 0.2], [0.3, 0.1, 0.2], [0.1, 0.1, 0.4], [0.6 / 3, 0.2, 0.2],
+                [0.2, 0.2, float(np.nextafter(0.2, 1))], [0.7, 0.1, -0.2], [0.7, -0.2, 0.1]]
+        # (catastrophic cancellation such as [1e16, 1.0, -1e16], float mean 0.0 vs exact 1/3, is outside the claim:
+        #  observed scores are accepted only within relative 2^-40 of the exact window mean)
+        for rep in range(12 if quick else 120):
+            n = rng.choice([2, 3, 4, 6, 10])
+            fits = [[rng.choice(self.VALS)] * rng.randint(0, 2) + list(rng.choice(near)) for _ in range(n)]
+            t = rng.randint(1, 4)
+            p = rng.choice([n, n + 1])
+            cases.append({"kind": "lite", "via": "select", "cfg": {"t": t, "e": rng.random() < 0.5, "p": p, "w": 3},
+                          "pop": [{"index": ix, "fitness": f} for ix, f in zip(self.rand_indices(rng, n), fits)],
+                          "gens": [{"draws": self.gen_draws(rng, n, t, p + 2), "newfit": []}]})
         # F. the guard: an empty population is rejected by the code and by the model
         cases.append({"kind": "lite", "via": "select", "cfg": {"t": 2, "e": True, "p": 3, "w": 1}, "pop": [],
                       "gens": [{"draws": self.gen_draws(rng, 1, 2, 5), "newfit": []}]})
@@ -307,38 +450,138 @@ class C05(vlib.Driver):
 
     # ---------- implementation
     def setup(self, tier):
-        self.pool = []
-        self.mut = None
+        self.pools = {}
+        self.muts = {}
 
-    def dqn_agent(self, k):
+    @property
+    def NET(self):
+        return {"encoder_config": {"hidden_size": [8]}}      # partial net_config on purpose (DESIGN 8.21b); one dict per agent
+
+    def build_agent(self, kind, k):
+        """a real agent that has LEARNED and ACTED (optimizer state, bandit confidence matrix, noise state and
+        observation normaliser are no longer at their initial values, so clone has to carry them over)"""
         from gymnasium import spaces
-        from agilerl.algorithms.dqn import DQN
-        while len(self.pool) <= k:
-            obs = spaces.Box(-1, 1, (3,), dtype=np.float32)
-            # partial net_config on purpose (DESIGN 8.21b)
-            ag = DQN(obs, spaces.Discrete(2), index=len(self.pool),
-                     net_config={"encoder_config": {"hidden_size": [8]}})
-            # one gradient step, so that the optimizer has state that a clone must copy and not share
-            from tensordict import TensorDict
-            b = 4
+        box3 = spaces.Box(-1, 1, (3,), dtype=np.float32)
+        if kind == "dqn":
+            from agilerl.algorithms.dqn import DQN
+            ag = DQN(box3, spaces.Discrete(2), index=k, net_config=self.NET)
+        elif kind == "rsnorm":
+            from agilerl.algorithms.dqn import DQN
+            from agilerl.wrappers.agent import RSNorm
+            ag = DQN.population(1, box3, spaces.Discrete(2), wrapper_cls=RSNorm, net_config=self.NET)[0]
+        elif kind == "rsnorm-ddpg":
+            from agilerl.algorithms.ddpg import DDPG
+            from agilerl.wrappers.agent import RSNorm
+            ag = RSNorm(DDPG(box3, spaces.Box(-1, 1, (2,), dtype=np.float32), index=k, net_config=self.NET, batch_size=4))
+        elif kind in ("ucb", "ts"):
+            from agilerl.algorithms.neural_ucb_bandit import NeuralUCB
+            from agilerl.algorithms.neural_ts_bandit import NeuralTS
+            cls = NeuralUCB if kind == "ucb" else NeuralTS
+            ag = cls(spaces.Box(-1, 1, (4,), dtype=np.float32), spaces.Discrete(3), index=k, net_config=self.NET, batch_size=4)
+        elif kind == "ddpg":
+            from agilerl.algorithms.ddpg import DDPG
+            ag = DDPG(box3, spaces.Box(-1, 1, (2,), dtype=np.float32), index=k, net_config=self.NET, batch_size=4)
+        elif kind == "td3":
+            from agilerl.algorithms.td3 import TD3
+            ag = TD3(box3, spaces.Box(-1, 1, (2,), dtype=np.float32), index=k, net_config=self.NET, batch_size=4)
+        elif kind == "cqn":
+            from agilerl.algorithms.cqn import CQN
+            ag = CQN(box3, spaces.Discrete(2), index=k, net_config=self.NET, batch_size=4)
+        elif kind == "ppo":
+            from agilerl.algorithms.ppo import PPO
+            ag = PPO(box3, spaces.Discrete(2), index=k, net_config=self.NET, batch_size=4)
+        elif kind == "matd3":
+            from agilerl.algorithms.matd3 import MATD3
+            ids = ["agent_0", "agent_1"]
+            ag = MATD3([box3, box3], [spaces.Box(-1, 1, (2,), dtype=np.float32)] * 2, agent_ids=ids, index=k,
+                       net_config=self.NET, batch_size=4)
+        elif kind == "maddpg":
+            from agilerl.algorithms.maddpg import MADDPG
+            ids = ["agent_0", "agent_1"]
+            ag = MADDPG([box3, box3], [spaces.Box(-1, 1, (2,), dtype=np.float32)] * 2, agent_ids=ids, index=k,
+                        net_config=self.NET, batch_size=4)
+        else:
+            raise ValueError(kind)
+        for _ in range(2):
+            self.exercise(kind, ag)
+        return ag
+
+    def exercise(self, kind, ag):
+        """what the training loop does with a member: act, learn"""
+        from tensordict import TensorDict
+        b = 4
+        if kind == "lite":
+            ag.body.append(1.0)                     # in-place update of owned state
+            ag.body[0] += 1.0
+            return
+        if kind in ("ucb", "ts"):
+            ag.get_action(np.random.randn(3, 4).astype(np.float32))      # updates sigma_inv in place
+            ag.learn(TensorDict({"obs": torch.randn(b, 4), "reward": torch.randn(b, 1)}, batch_size=[b]))
+        elif kind == "ppo":
+            ag.get_action(np.random.randn(1, 3).astype(np.float32))      # on-policy: acting only (rollout learning is C17)
+        elif kind in ("dqn", "rsnorm", "cqn"):
+            ag.get_action(np.random.randn(1, 3).astype(np.float32))
             ag.learn(TensorDict({"obs": torch.randn(b, 3), "action": torch.randint(0, 2, (b, 1)),
                                  "reward": torch.randn(b, 1), "next_obs": torch.randn(b, 3),
                                  "done": torch.zeros(b, 1)}, batch_size=[b]))
-            self.pool.append(ag)
-        return self.pool[k]
+        elif kind in ("ddpg", "rsnorm-ddpg", "td3"):
+            ag.get_action(np.random.randn(1, 3).astype(np.float32))
+            ag.learn(TensorDict({"obs": torch.randn(b, 3), "action": torch.rand(b, 2),
+                                 "reward": torch.randn(b, 1), "next_obs": torch.randn(b, 3),
+                                 "done": torch.zeros(b, 1)}, batch_size=[b]))
+        elif kind in ("maddpg", "matd3"):
+            ids = ["agent_0", "agent_1"]
+            ag.get_action({i: np.random.randn(1, 3).astype(np.float32) for i in ids})
+            ag.learn(({i: torch.randn(b, 3) for i in ids}, {i: torch.rand(b, 2) for i in ids},
+                      {i: torch.randn(b, 1) for i in ids}, {i: torch.randn(b, 3) for i in ids},
+                      {i: torch.zeros(b, 1) for i in ids}))
+
+    def pool_agent(self, kind, k):
+        pool = self.pools.setdefault(kind, [])
+        while len(pool) <= k:
+            pool.append(self.build_agent(kind, len(pool)))
+        return pool[k]
 
     def make_pop(self, case):
         pop = []
         for i, a in enumerate(case["pop"]):
-            if case["kind"] == "dqn":
-                ag = self.dqn_agent(i)
-                ag.index = a["index"]
-                ag.fitness = [float(x) for x in a["fitness"]]
-                setattr(ag, TAG, i)
+            fit = [self.as_type(x, case.get("ftype", "float")) for x in a["fitness"]]
+            if case["kind"] == "lite":
+                ag = LiteAgent(a["index"], fit, i, [float(i), 0.5])
             else:
-                ag = LiteAgent(a["index"], [float(x) for x in a["fitness"]], i, [float(i), 0.5])
+                ag = self.pool_agent(case["kind"], i)
+                if case.get("reload"):
+                    # the population was saved and loaded back before this selection (resumed training run)
+                    d = vlib.BUILD / (self.pid + vlib.ALT_TAG) / "ckpt"
+                    d.mkdir(parents=True, exist_ok=True)
+                    path = str(d / f"{case['kind']}_{i}.pt")
+                    ag.save_checkpoint(path)
+                    ag = type(ag).load(path)
+                ag.index = a["index"]
+                ag.fitness = fit
+                setattr(ag, TAG, i)
             pop.append(ag)
         return pop
+
+    @staticmethod
+    def as_type(x, ftype):
+        """scores as the training loops produce them: python floats, np.float64 (np.mean of rewards), ints"""
+        if ftype == "np":
+            return np.float64(x)
+        if ftype == "int" and float(x).is_integer():
+            return int(x)
+        return float(x)
+
+    def mutations(self, mode):
+        from agilerl.hpo.mutation import Mutations
+        if mode not in self.muts:
+            if mode == "real":      # clone -> mutate -> clone chains
+                self.muts[mode] = Mutations(no_mutation=0.2, architecture=0.3, new_layer_prob=0.3, parameters=0.3,
+                                            activation=0.1, rl_hp=0.1, rand_seed=7)
+            else:
+                self.muts[mode] = Mutations(no_mutation=1.0, architecture=0, new_layer_prob=0, parameters=0,
+                                            activation=0, rl_hp=0, rand_seed=1)
+        return self.muts[mode]
 
     def run_impl(self, case):
         cfg = case["cfg"]
@@ -357,23 +600,37 @@ class C05(vlib.Driver):
             script = Script(g["draws"])
             np.random.randint = script
             captured = {}
+            # the scores the code ranks by: results of np.mean on plain lists while select runs
+            mean_calls = []
+            orig_mean = np.mean
+
+            def rec_mean(a, *args, **kw):
+                r = orig_mean(a, *args, **kw)
+                if isinstance(a, list) and not args and not kw:
+                    try:
+                        mean_calls.append(([float(x) for x in a], float(r)))
+                    except (TypeError, ValueError):
+                        pass
+                return r
+            np.mean = rec_mean
             try:
                 if case["via"] == "utils":
                     from agilerl.utils.utils import tournament_selection_and_mutation
-                    from agilerl.hpo.mutation import Mutations
-                    if self.mut is None:
-                        self.mut = Mutations(no_mutation=1.0, architecture=0, new_layer_prob=0, parameters=0,
-                                             activation=0, rl_hp=0, rand_seed=1)
+                    mut = self.mutations(case.get("mut", "none"))
                     real_select = ts.select
 
                     def spy(population, _f=real_select):
                         e, npop = _f(population)
+                        np.random.randint = orig          # the scripted source serves select only, not the mutations
+                        np.mean = orig_mean
                         captured["elite"] = e
+                        captured["npop"] = list(npop)
                         captured["raw"] = [snapshot(a) for a in npop]
                         return e, npop
                     ts.select = spy
                     try:
-                        new_pop = tournament_selection_and_mutation(pop, ts, self.mut, "verif-env", algo="DQN")
+                        new_pop = tournament_selection_and_mutation(pop, ts, mut, "verif-env",
+                                                                    algo=None if len(case["gens"]) % 2 else "DQN")
                     finally:
                         ts.select = real_select
                     elite = captured.get("elite")
@@ -382,8 +639,21 @@ class C05(vlib.Driver):
                 err = None
             except Exception as e:  # noqa: BLE001 — the observation records that the call raised
                 err = f"{type(e).__name__}: {e}"
+                if "raw" in captured:
+                    # select had returned: the exception comes from the mutation half of the wrapper (property C02/C03
+                    # territory).  Observe what select built, then stop the chain.
+                    rec["mutation_error"] = err
+                    err, elite, new_pop = None, captured["elite"], captured["npop"]
             finally:
                 np.random.randint = orig
+                np.mean = orig_mean
+            # accepted only if they are, in order, the means of exactly the evaluation windows (otherwise the exact
+            # rational means are used and the generation must be well-conditioned)
+            wins = [s["fitness"][-cfg["w"]:] for s in pre]
+            if len(mean_calls) >= len(pre) > 0 and [c[0] for c in mean_calls[:len(pre)]] == wins:
+                rec["mobs"] = [c[1] for c in mean_calls[:len(pre)]]
+            else:
+                rec["mobs"] = None
             rec["reqs"] = script.reqs
             rec["used"] = script.k
             rec["error"] = err
@@ -395,12 +665,24 @@ class C05(vlib.Driver):
                 gens_obs.append(rec)
                 break
             is_list = isinstance(new_pop, list)
+            real_mut = case["via"] == "utils" and case.get("mut") == "real"
             rec["elite"] = self.observe(elite, pre)
-            rec["members"] = [self.observe(a, pre) for a in new_pop]
+            if "raw" in captured:
+                # members as select built them (before the real mutation changed their networks)
+                rec["members"] = [{"parent": s["tag"], "index": s["index"], "fitness": s["fitness"], "fp": s["fp"],
+                                   "same_net": (s["tag"] is not None and 0 <= s["tag"] < len(pre) and pre[s["tag"]]["fp"] == s["fp"])}
+                                  for s in captured["raw"]]
+            else:
+                rec["members"] = [self.observe(a, pre) for a in new_pop]
             if case["via"] == "utils" and "raw" in captured:
-                # what select returned must be what the wrapper hands on (mutation was configured as no-op)
-                rec["wiring_ok"] = is_list and [(s["index"], s["tag"], s["fitness"], s["fp"]) for s in captured["raw"]] == \
-                    [(int(a.index), getattr(a, TAG, None), [float(x) for x in a.fitness], net_fingerprint(a)) for a in new_pop]
+                # what select returned must be what the wrapper hands on: same agents in the same order (and, when
+                # mutation is configured as a no-op, with the same contents)
+                def ident(ix, tag, fit, fp):
+                    # contents are compared only for DQN with mutation disabled: Mutations.mutation runs the agents'
+                    # mutation hooks even for a no-op, which e.g. resets the bandits' confidence matrix
+                    return (ix, tag, fit, fp) if (case["kind"] == "dqn" and not real_mut) else (ix, tag, fit)
+                rec["wiring_ok"] = "mutation_error" in rec or is_list and [ident(s["index"], s["tag"], s["fitness"], s["fp"]) for s in captured["raw"]] == \
+                    [ident(int(a.index), getattr(a, TAG, None), [float(x) for x in a.fitness], net_fingerprint(a)) for a in new_pop]
             # aliasing between the new objects and the old ones / each other
             alias = []
             seen = {}
@@ -409,25 +691,52 @@ class C05(vlib.Driver):
                     seen[s] = f"old[{i}]"
             objs = [("elite", elite)] + [(f"new[{i}]", a) for i, a in enumerate(new_pop)]
             for name, a in objs:
-                for s in storages(a):
+                for s, slot in storages(a).items():
                     if s in seen:
-                        alias.append([name, seen[s]])
+                        alias.append([name, seen[s], slot])
                     else:
                         seen[s] = name
             rec["alias"] = alias[:6]
+            # every member (then the elite) is trained and acts, one at a time; nobody else may change:
+            # neither the old population nor the elite nor a sibling
+            everyone = [(f"old[{i}]", a) for i, a in enumerate(pop)] + objs
+            states = [full_state(a) for _, a in everyone]
+            post_changed = []
+            for j in ([] if "mutation_error" in rec else list(range(len(pop) + 1, len(everyone))) + [len(pop)]):
+                try:
+                    self.exercise(case["kind"], everyone[j][1])
+                except Exception as e:  # noqa: BLE001
+                    post_changed.append([everyone[j][0], "cannot-train", f"{type(e).__name__}: {e}"[:200]])
+                    break
+                for i, (nm, a) in enumerate(everyone):
+                    st = full_state(a)
+                    if i != j and st != states[i]:
+                        diff = sorted(k for k in set(st) | set(states[i]) if st.get(k) != states[i].get(k))
+                        post_changed.append([everyone[j][0], nm, diff[:3]])
+                    states[i] = st
+                if post_changed:
+                    break
+            rec["post_changed"] = post_changed[:4]
             gens_obs.append(rec)
             # next generation: every member is trained / evaluated, a score is appended
             for i, a in enumerate(new_pop):
                 nf = g["newfit"][i] if i < len(g["newfit"]) else []
                 for x in nf:
-                    a.fitness.append(float(x))
+                    a.fitness.append(self.as_type(x, case.get("ftype", "float")))
             pop = list(new_pop)
+            if "mutation_error" in rec:
+                break
         return {"gens": gens_obs}
 
     def observe(self, a, pre):
         tag = getattr(a, TAG, None)
-        o = {"parent": tag, "index": int(a.index), "fitness": [float(x) for x in a.fitness], "fp": net_fingerprint(a)}
-        o["same_net"] = (tag is not None and 0 <= tag < len(pre) and pre[tag]["fp"] == o["fp"])
+        st = faithful_view(full_state(a))
+        o = {"parent": tag, "index": int(a.index), "fitness": [float(x) for x in a.fitness],
+             "fp": hashlib.sha1(repr(sorted(st.items())).encode()).hexdigest()[:16]}
+        o["same_net"] = (isinstance(tag, int) and 0 <= tag < len(pre) and pre[tag]["fp"] == o["fp"])
+        if isinstance(tag, int) and 0 <= tag < len(pre) and not o["same_net"]:
+            ps = pre[tag]["fstate"]
+            o["diff"] = sorted(k for k in set(st) | set(ps) if st.get(k) != ps.get(k))[:5]
         return o
 
     # ---------- model term
@@ -436,8 +745,9 @@ class C05(vlib.Driver):
         c = f"{{| tsize := {cfg['t']}; elitism := {vlib.coq_bool(cfg['e'])}; psize := {cfg['p']}; eval_loop := {cfg['w']} |}}"
         gs = []
         for g, rec in zip(case["gens"], obs["gens"]):
-            if not rec["wellcond"]:
+            if not rec["wellcond"] and not rec.get("mobs"):
                 continue
+            mobs = self.qlist(rec["mobs"]) if rec.get("mobs") else "[]"
             pop = "[" + "; ".join(f"mk {coq_Z(a['index'])} {self.qlist(a['fitness'])} {i}" for i, a in enumerate(rec["pre"])) + "]"
             draws = "[" + "; ".join("[" + "; ".join(str(int(d)) for d in ds) + "]" for ds in g["draws"][:rec["used"]]) + "]"
             reqs = "[" + "; ".join(f"({coq_Z(r[0])}, {coq_Z(r[1])}, {max(r[2], 0) if r[2] < 5000 else 4999})" for r in rec["reqs"]) + "]"
@@ -449,11 +759,11 @@ class C05(vlib.Driver):
                     return f"({par}, {coq_Z(o['index'])}, {self.qlist(o['fitness'])})"
                 ob = f"(Some ({oa(rec['elite'])}, [" + "; ".join(oa(m) for m in rec["members"]) + "]))"
             shared = vlib.coq_bool(bool(rec.get("alias")))
-            changed = vlib.coq_bool(bool(rec["old_changed"]) or rec["old_list_changed"])
-            gs.append(f"({pop}, {draws}, {reqs}, ({shared}, {changed}), {ob})")
+            changed = vlib.coq_bool(bool(rec["old_changed"]) or rec["old_list_changed"] or bool(rec.get("post_changed")))
+            gs.append(f"({pop}, {mobs}, {draws}, {reqs}, ({shared}, {changed}), {ob})")
         if not gs:
             return None
-        return f"check_chain {c} [" + "; ".join(gs) + "]"
+        return f"check_chain_f {c} [" + "; ".join(gs) + "]"
 
     @staticmethod
     def qlist(xs):
@@ -474,9 +784,14 @@ class C05(vlib.Driver):
                 out.append(Violation("select-returns", f"select-raises:{rec['error'].split(':')[0]}",
                                      f"{where}: select raised {rec['error']} on a non-empty population {pre}"))
                 break
-            if not rec["wellcond"]:
+            exact = [frac_mean(a["fitness"], cfg["w"]) for a in pre]
+            if rec.get("mobs") and all(abs(Fraction(f) - q) <= Fraction(1, 2 ** 40) * (1 + abs(q)) for f, q in zip(rec["mobs"], exact)):
+                # the float64 means the code computed (each within rounding of the exact window mean)
+                means = [Fraction(f) for f in rec["mobs"]]
+            elif rec["wellcond"]:
+                means = exact
+            else:
                 continue
-            means = [frac_mean(a["fitness"], cfg["w"]) for a in pre]
             best = max(means)
             el, mem = rec["elite"], rec["members"]
 
@@ -535,7 +850,7 @@ class C05(vlib.Driver):
                 if valid_parent(o) and (o["fitness"] != pre[o["parent"]]["fitness"] or not o["same_net"]):
                     out.append(Violation("faithful-copy", "copy-differs",
                                          f"{where}: {name} is not a faithful copy of agent {o['parent']}: fitness {o['fitness']} vs "
-                                         f"{pre[o['parent']]['fitness']}, networks equal={o['same_net']}"))
+                                         f"{pre[o['parent']]['fitness']}, other state equal={o['same_net']}, differing slots {o.get('diff')}"))
                     break
             # 7. old population untouched, no sharing with it
             if rec["old_changed"] or rec["old_list_changed"]:
@@ -543,7 +858,12 @@ class C05(vlib.Driver):
                                      f"{where}: agents {rec['old_changed']} of the old population changed (list changed: {rec['old_list_changed']})"))
             if rec["alias"]:
                 out.append(Violation("old-untouched", "copy-shares-storage",
-                                     f"{where}: objects share storage: {rec['alias']}"))
+                                     f"{where}: objects share storage (copy, other object, slot): {rec['alias']}"))
+            if rec.get("post_changed"):
+                pc = rec["post_changed"][0]
+                out.append(Violation("old-untouched", "training-a-member-changes-another-agent",
+                                     f"{where}: after selection, training/acting with {pc[0]} changed {pc[1]} (slots {pc[2]}); "
+                                     f"all: {rec['post_changed']}"))
             if rec.get("wiring_ok") is False:
                 out.append(Violation("wiring", "utils-wiring",
                                      f"{where}: tournament_selection_and_mutation (mutation disabled) does not return the population select built"))
@@ -579,7 +899,12 @@ class C05(vlib.Driver):
         labs = [f"kind={case['kind']}", f"via={case['via']}", f"n={n if n <= 8 else ('9-16' if n <= 16 else '>16')}",
                 f"tsize={cfg['t']}", f"window={cfg['w']}", f"elitism={cfg['e']}",
                 "psize" + ("=" if cfg["p"] == n else ("<" if cfg["p"] < n else ">")) + "n",
-                f"generations={len(case['gens']) if len(case['gens']) < 5 else '>=5'}"]
+                f"generations={len(case['gens']) if len(case['gens']) < 5 else '>=5'}",
+                f"scores-as={case.get('ftype', 'float')}", f"reloaded={bool(case.get('reload'))}", f"mutation={case.get('mut', 'none') if case['via'] == 'utils' else 'n/a'}"]
+        if n and case["pop"][0]["index"] == max(a["index"] for a in case["pop"]) and n > 1:
+            labs.append("branch:max-index-first")
+        if any(a["index"] < 0 for a in case["pop"]):
+            labs.append("negative-index")
         for gi, (g, rec) in enumerate(zip(case["gens"], obs["gens"])):
             pre = rec["pre"]
             if not pre or rec["error"] is not None:
@@ -613,8 +938,28 @@ class C05(vlib.Driver):
                 if ds and ms[ds[0]] != top:
                     labs.append("branch:winner-not-first-drawn")
             if not rec["wellcond"]:
-                labs.append("skipped:float-order-differs-from-exact")
+                labs.append("branch:float-order-differs-from-exact:" + ("ranked-by-observed-scores" if rec.get("mobs") else "skipped"))
+            labs.append("scores-observed" if rec.get("mobs") else "scores-not-observed")
+            if "mutation_error" in rec:
+                labs.append("chain-ended:mutation-raised:" + rec["mutation_error"].split(":")[0])
         return sorted(set(labs))
+
+    def extra_static(self):
+        """the guards the theorems state as hypotheses (sizes > 0, boolean elitism) are enforced by the constructor"""
+        out = []
+        for args, what in (((0, True, 2, 1), "tournament_size=0"), ((2, True, 0, 1), "population_size=0"),
+                           ((2, True, 2, 0), "eval_loop=0"), ((2, 1, 2, 1), "elitism=1 (not a bool)"),
+                           ((-1, False, 2, 1), "tournament_size=-1")):
+            try:
+                TournamentSelection(*args)
+            except AssertionError:
+                continue
+            except Exception as e:  # noqa: BLE001
+                out.append(Violation("constructor-guard", "constructor-guard", f"TournamentSelection{args} ({what}) raised {type(e).__name__} instead of rejecting it", None, None))
+                continue
+            out.append(Violation("constructor-guard", "constructor-guard",
+                                 f"TournamentSelection{args} ({what}) was accepted: the selection theorems assume sizes > 0 and a boolean elitism flag", None, None))
+        return out
 
     nb_budget = 8        # K disagreements whose neighbourhood is searched (each search runs the code 5-6 times)
 
